@@ -581,6 +581,31 @@ Theorem C03_valid_file_is_read : forall si others fs allb (e : FlacReaders.Ser.e
       FlacReaders.Spec.exactly_once pcm atr.
 Proof. exact valid_file_is_read. Qed.
 
+Theorem C07_decoded_file_is_read_bytes_channels : forall file si frames e rp,
+  FlacCodec.Stream.dec_stream file = Some (si, frames, FlacCodec.Stream.EndEof) ->
+  1 <= FlacCodec.Ast.si_channels si -> 1 <= FlacCodec.Ast.si_bps si <= 32 ->
+  N.of_nat (length (concat frames)) < 2 ^ 36 ->
+  exists blocks, frames = map FlacCodec.Stream.interleave_frame blocks /\
+    let F := file_of_blocks blocks (FlacCodec.Ast.si_channels si) (FlacCodec.Ast.si_bps si)
+               (if FlacCodec.Ast.si_total si =? 0 then None else Some (FlacCodec.Ast.si_total si)) e rp in
+    FlacReaders.Spec.pcm_bytes F = FlacReaders.Ser.ser e (FlacReaders.Ser.bytes_per_sample (FlacCodec.Ast.si_bps si)) (concat frames) /\
+    (forall ops, FlacReaders.Spec.no_bseek ops -> Forall FlacReaders.Spec.bop_ok (snd (FlacReaders.Seek.byte_run F ops)) ->
+      let atr := map (FlacReaders.Spec.abs_b F) (snd (FlacReaders.Seek.byte_run F ops)) in
+      Forall (FlacReaders.Spec.cur_ok (FlacReaders.Spec.pcm_bytes F)) atr /\
+      FlacReaders.Spec.chained 0 atr (FlacReaders.Spec.bpos F (fst (FlacReaders.Seek.byte_run F ops))) /\
+      FlacReaders.Spec.exactly_once (FlacReaders.Spec.pcm_bytes F) atr) /\
+    (forall ops c, (c < N.to_nat (FlacCodec.Ast.si_channels si))%nat -> FlacReaders.Spec.no_cseek ops ->
+      Forall FlacReaders.Spec.cop_ok (snd (FlacReaders.Seek.chan_run F ops)) ->
+      let atr := map (FlacReaders.Spec.abs_c F c) (snd (FlacReaders.Seek.chan_run F ops)) in
+      Forall (FlacReaders.Spec.cur_ok (FlacReaders.Spec.chan_pcm F c)) atr /\
+      FlacReaders.Spec.chained 0 atr (FlacReaders.Spec.cpos (fst (FlacReaders.Seek.chan_run F ops))) /\
+      FlacReaders.Spec.exactly_once (FlacReaders.Spec.chan_pcm F c) atr /\
+      Forall (FlacReaders.Spec.chan_shape F) (snd (FlacReaders.Seek.chan_run F ops))) /\
+    (forall c, (c < N.to_nat (FlacCodec.Ast.si_channels si))%nat -> forall i, (i < N.to_nat (FlacReaders.Spec.total_frames F))%nat ->
+      nth_error (FlacReaders.Spec.chan_pcm F c) i = nth_error (concat frames) (i * N.to_nat (FlacCodec.Ast.si_channels si) + c)).
+Proof. exact decoded_file_is_read_bytes_channels. Qed.
+
+Print Assumptions C07_decoded_file_is_read_bytes_channels.
 Print Assumptions C03_valid_file_is_read.
 Print Assumptions C07_decoded_file_is_read.
 Print Assumptions C06_byte_written_file_seeks.
